@@ -328,6 +328,16 @@ class Headers:
                     self._size = self.io.seek(0, os.SEEK_END) // self.header_size
                     return
                 previous_header_hash = header_hash
+        # no header links to the last one: check it the way connect() did when it was stored
+        if len(self) > max(start_height, 1):
+            try:
+                await self.validate_chunk(self.height, self._read(self.height))
+            except InvalidHeader:
+                log.warning("Header file corrupted at height %s, truncating it.", self.height)
+                self.io.seek(self.height * self.header_size, os.SEEK_SET)
+                self.io.truncate()
+                self.io.flush()
+                self._size = self.io.seek(0, os.SEEK_END) // self.header_size
 
     @classmethod
     def get_proof_of_work(cls, header_hash: bytes):
